@@ -363,6 +363,8 @@ func (e *Engine) runPath(fn *ssa.Function, prefix []uint64, base Options) {
 	e.spec = nil
 	e.cwd = ""
 	e.dirs = nil
+	e.files = nil
+	e.gomaxprocs = nil
 	e.absKernel = nil
 	e.res.Paths++
 	end := "completed"
